@@ -32,6 +32,10 @@ def mathDiv (a b : Int) : Int :=
 def roundTime (t step utcOffset : Int) : Int :=
   mathDiv (t + utcOffset) step * step - utcOffset
 
+/-- seeded variant C22-r5-1 (NOT the code): `t - (t+utcOffset)%step` with Go's truncating `%` — rounds UP when t+utcOffset < 0 -/
+def roundTimeTrunc (t step utcOffset : Int) : Int :=
+  t - Int.tmod (t + utcOffset) step
+
 def isMonth (step : Int) : Bool := step == monthStep
 
 def stepForward (cal : Cal) (start step : Int) : Int :=
